@@ -356,7 +356,7 @@ def check_server(prop, tier, replay):
         "evaluations": len(jobs), "distinct_nontrivial": len(distinct),
         "rule": "a run = real PolicyState actors driven gate by gate (scripted by a TLC behaviour, by a systematic "
                 "injection point, or by a seeded random policy); distinct = (gate/command, state kind it met) pairs exercised",
-        "tlc_behaviours_replayed": nscript, "script_drift_runs": st["script_drift"],
+        "tlc_behaviours_replayed": nscript, "script_drift": f"{st['script_drift']} scripted runs left their TLC behaviour",
         "trace_events_validated": st["events"], "observations_judged": st["checked"],
         "scenarios": len(scs), "mc_runs": mcs, "fixes_in_tree": fixes(),
     }
